@@ -129,6 +129,18 @@ class Run:
             module, cfg, r.distinct, r.generated, r.depth, r.wall, r.ok))
         return r
 
+    def apalache(self, module, init, inv, length, timeout=600):
+        """One Apalache query (bounded symbolic check); returns True iff `NoError`."""
+        d = self.spec_dir("apalache")
+        out_dir = os.path.join(self.scratch, "apalache-out")
+        cmd = ["apalache-mc", "check", "--out-dir=" + out_dir, "--init=" + init, "--inv=" + inv, "--length=%d" % length, module]
+        try:
+            p = subprocess.run(cmd, cwd=d, capture_output=True, text=True, timeout=timeout,
+                               env=dict(os.environ, JVM_ARGS="-Djava.io.tmpdir=%s" % os.path.join(self.scratch, "tmp")))
+        except (subprocess.TimeoutExpired, FileNotFoundError) as e:
+            raise Infra("apalache: %s" % e)
+        return "The outcome is: NoError" in (p.stdout + p.stderr)
+
     # ------------------------------------------------------------ verdicts
     def violation(self, key, replay, what):
         kf = match_known(self.prop, key)
